@@ -7,6 +7,7 @@ from hypothesis import strategies as st
 from mingus.containers import Note
 from mingus.containers.mt_exceptions import NoteFormatError
 
+from vlib import fuzz
 from vlib.core import Sub, failed
 from vlib.ref import theory as T
 
@@ -305,7 +306,25 @@ def sub_bounds_malformed(ctx, shard, n):
     ctx.given("malformed", check_malformed, st.text(alphabet=nodash, min_size=1, max_size=8) | near, 1500 if ctx.quick else 20000)
 
 
+
+# ---- coverage-guided fuzz target (atheris): bytes -> text biased towards the relevant alphabet ------------------
+_FUZZ_ALPHABET = list("ABCDEFG#b#bcHh x4'")
+
+
+def _fuzz_text(fdp):
+    raw = fdp.ConsumeBytes(fdp.ConsumeIntInRange(1, 10))
+    s = "".join(_FUZZ_ALPHABET[b] if b < len(_FUZZ_ALPHABET) else chr(b if b < 128 else 0x100 + b) for b in raw)
+    return s or None
+
+
+FUZZ = {"names": (_fuzz_text, "malformed")}
+
+def sub_fuzz(ctx, shard, n):
+    fuzz.run(ctx, __name__, "names", 15000 if ctx.quick else 200000, max_len=12)
+
+
 SUBS = [
+    Sub("fuzz", sub_fuzz, quick=1, thorough=4),
     Sub("notes", sub_notes, quick=2, thorough=16),
     Sub("pairs", sub_pairs, quick=2, thorough=16),
     Sub("sort", sub_sort),
